@@ -184,20 +184,6 @@ class World:
       self.Qidx = getattr(self, 'Qidx', []) + [qidx]
     self.qnames = sorted(self.Q[0].keys())
     self.nt, self.nv, self.ns = len(self.T), 2, 2
-    if name.startswith('SDML'):
-      # SDML may legitimately fail (RuntimeError, C13) when its solver finds the problem too ill-conditioned: such
-      # a world says nothing about the life-cycle, so the (deterministic) construction is redone with another seed
-      for j in (0, 1):
-        for i in range(len(self.train)):
-          try:
-            self.fit(self.new(j + 1), i + 1)
-          except RuntimeError:
-            if seed < 10 ** 12:
-              self.__init__(name, seed + 1000003, same_dims=same_dims and not indexed, nparams=nparams, ndata=ndata,
-                            with_arrays=with_arrays, indexed=indexed, wide=wide)
-              return
-          except ValueError:
-            pass
     if indexed:
       # every data-taking call gets INDICES; each parameter setting carries its own array preprocessor (different
       # points under the same indices), so a stale preprocessor_ shows up as a wrong model / output
@@ -214,6 +200,23 @@ class World:
         for qn, args in self.Qidx[i].items():
           meth = self.Q[i][qn][0]
           self.Q[i][qn] = (meth, tuple([args[0] + offs[i]] + list(args[1:])))
+
+    if name.startswith('SDML'):
+      # SDML may legitimately fail (RuntimeError, C13) when its solver finds the problem too ill-conditioned: such
+      # a world says nothing about the life-cycle, so the (deterministic) construction is redone with another seed
+      import copy as _copy
+      probe = _copy.deepcopy(self)          # (the trial fits never see the arrays of the world itself)
+      for j in range(len(self.P)):
+        for i in range(len(self.train)):
+          try:
+            probe.fit(probe.new(j + 1), i + 1)
+          except RuntimeError:
+            if seed < 10 ** 12:
+              self.__init__(name, seed + 1000003, same_dims=same_dims and not indexed, nparams=nparams, ndata=ndata,
+                            with_arrays=with_arrays, indexed=indexed, wide=wide)
+              return
+          except ValueError:
+            pass
 
   # ---- digests of everything the caller owns
   def arrays_digest(self):
@@ -425,11 +428,11 @@ def run(w, ops):
         gp = e.get_params()
         ev['identical'] = all(gp[k] is v for k, v in kwargs.items())
       elif kind == 'Clone':
+        ev['obj'] = op[1]
         objs.append(clone(objs[op[1] - 1]))
-        ev['obj'] = op[1]
       elif kind == 'Pickle':
-        objs.append(pickle.loads(pickle.dumps(objs[op[1] - 1])))
         ev['obj'] = op[1]
+        objs.append(pickle.loads(pickle.dumps(objs[op[1] - 1])))
       elif kind == 'Fit':
         ev['obj'], ev['data'] = op[1], op[2]
         w.fit(objs[op[1] - 1], op[2])
@@ -480,6 +483,8 @@ def run(w, ops):
     finally:
       _silence.__exit__(None, None, None)
     snapshot(ev)
+    if kind in ('Clone', 'Pickle') and ev['exc']:
+      break          # the object the rest of the history talks about does not exist: the history ends with this event
   return events
 
 
